@@ -534,8 +534,9 @@ def replay_transf(bname, model, meta):
 
 
 def bounded_file_roundtrip(pack, pid):
-    """bounded native stand-in: stock cases written to xlsx and json and read again give, for every model, the same input-base
-    parameter table (values and device order); power flow of the reloaded case equals the original"""
+    """bounded native stand-in: stock cases, with one load and one line status altered after loading, written to xlsx and json and read
+    again give, for every model, the same input-base parameter table (values and device order); power flow of the reloaded case equals
+    the original"""
     from contracts.packutil import native_guard
     name = '%s/andes/io:xlsx,json/bounded:dump-and-reload-reproduces-every-input-parameter' % pid
     cases = ['ieee14/ieee14_shuntsw.json', 'kundur/kundur_full.xlsx', '5bus/pjm5bus.xlsx']
@@ -552,9 +553,13 @@ def bounded_file_roundtrip(pack, pid):
         tmp = tempfile.mkdtemp(prefix='verif_io_')
         try:
             for case in cases:
-                a = andes.load(andes.get_case(case), default_config=True, no_output=True)
-                a.PFlow.run()
-                for fmt, writer in (('xlsx', ax.write), ('json', aj.write)):
+                for fmt, writer in (('json', aj.write), ('xlsx', ax.write)):
+                    # a fresh system per format: one writer must not benefit from the cache refresh of the other
+                    a = andes.load(andes.get_case(case), default_config=True, no_output=True)
+                    # parameters changed after loading (Model.alter: input-base value and converted value) must reach the dumped file
+                    a.PQ.alter('p0', a.PQ.idx.v[0], 0.9 * float(a.PQ.get('p0', a.PQ.idx.v[0], 'vin')))
+                    a.Line.alter('u', a.Line.idx.v[min(3, a.Line.n - 1)], 0)
+                    a.PFlow.run()
                     path = os.path.join(tmp, 'dump.' + fmt)
                     writer(a, path, overwrite=True)
                     b = andes.load(path, default_config=True, no_output=True)
@@ -584,3 +589,97 @@ def bounded_file_roundtrip(pack, pid):
                          'counted_as_proved': False})
     if bad:
         pack.violation(name, {'bounded': True, 'inputs': bad, 'native_cmd': 'load; write xlsx / json; load again; compare as_df(vin=True) of every model'})
+
+
+def writer_refreshes(pid, fmt):
+    """xlsx._write_system / json._dump_system: for every model that is written, the cached input table is REFRESHED from the current
+    input values (cache.refresh("df_in")) before it is read, so that parameters changed after loading (Model.alter) reach the file;
+    the table is filed under the model's own name; models without devices are skipped only when skip_empty is set."""
+    import z3
+    from pyvc.symex import Contract, Loop
+    from pyvc.symval import TObj, TInt, TBool, TColl, TStr, Mark, Opaque, fresh, Func
+    E = 'system.models.$e'
+
+    def refresh(ex, st, args, kw, node):
+        if len(args) == 1 and args[0] == 'df_in':
+            st.ghost['fresh'] = True
+        return None
+
+    def df_in(ex, st):
+        st.ghost['reads'] = st.ghost['reads'] + [bool(st.ghost['fresh'])]
+        return Mark('df_in')
+
+    def to_excel(ex, st, args, kw, node):
+        base = args[0]
+        nm = kw.get('sheet_name')
+        ok = isinstance(base, Mark) and base.kind == 'df_in' and isinstance(nm, Opaque) and nm.term.eq(st.env['name'].term)
+        st.ghost['written'] = st.ghost['written'] + [bool(ok)]
+        return None
+
+    def to_dict(ex, st, args, kw, node):
+        return Mark('table') if isinstance(args[0], Mark) and args[0].kind == 'df_in' else Mark('other')
+
+    def setitem(ex, st, args, kw, node):
+        base, sl, value = args
+        if isinstance(base, Mark) and base.kind == 'out':
+            k = ex.ev(sl, st)
+            ok = isinstance(value, Mark) and value.kind == 'table' and isinstance(k, Opaque) and k.term.eq(st.env['name'].term)
+            st.ghost['written'] = st.ghost['written'] + [bool(ok)]
+            return None
+        return NotImplemented
+
+    def reset(v):
+        v.st.ghost['fresh'] = False
+        v.st.ghost['reads'] = []
+        v.st.ghost['written'] = []
+        v.st.ghost['in_iter'] = True
+        return True
+
+    def inv(v):
+        g = v.st.ghost
+        if not g.get('in_iter'):
+            return True
+        skip = z3.And(v.st.env['skip_empty'] if z3.is_expr(v.st.env['skip_empty']) else z3.BoolVal(bool(v.st.env['skip_empty'])), v.z(E + '.n') == 0)
+        done = g['written'] == [True] and g['reads'] == [True]
+        nothing = g['written'] == [] and g['reads'] == []
+        return z3.If(skip, z3.BoolVal(nothing), z3.BoolVal(done))
+    if fmt == 'xlsx':
+        file, qual, params = 'andes/io/xlsx.py', '_write_system', {'system': TObj(), 'writer': TObj(), 'skip_empty': TBool()}
+    else:
+        file, qual, params = 'andes/io/json.py', '_dump_system', {'system': TObj(), 'skip_empty': TBool()}
+    c = Contract(file, qual, pid=pid, params=params, schema={'system.models': TColl(TStr.sort), E + '.n': TInt()},
+                 ghost_init={'fresh': False, 'reads': [], 'written': []},
+                 calls={E + '.cache.refresh': refresh, '<value>.to_excel': to_excel, '<value>.to_dict': to_dict, '__setitem__': setitem,
+                        'OrderedDict': lambda ex, st, a, k, n: Mark('out'), 'json.dumps': lambda ex, st, a, k, n: Opaque(fresh('text', TStr.sort))},
+                 globals_={'OrderedDict': Func('OrderedDict'), 'json': __import__('pyvc.symval', fromlist=['Module']).Module('json')},
+                 loops={0: Loop(inv=[('written-model:table-refreshed-then-read-once-and-filed-under-its-name;skipped-model:untouched', inv)], assume=[('reset', reset)],
+                                frame=['$name', '$instance', E + '.*'])},
+                 ensures=[], modifies=[], static=True)
+    c.properties = {E + '.cache.df_in': df_in}
+    c.merge = False
+    c.tag = fmt
+
+    def pre_state(st):
+        st.ghost.pop('in_iter', None)
+    c.pre_state = pre_state
+    return c
+
+
+def replay_altered_dump(obligation=None, model=None, meta=None):
+    """native: load, alter one load and one line status, dump to json / xlsx with a fresh system per format, reload, compare every input table"""
+    from pyvc.report import Pack
+
+    class _P:
+        def __init__(self):
+            self.bounded, self.v = [], []
+
+        def violation(self, name, payload, **kw):
+            self.v.append(payload)
+
+        def undecided_obl(self, *a, **k):
+            pass
+    p = _P()
+    bounded_file_roundtrip(p, 'C13')
+    if p.v:
+        return {'confirmed': True, 'inputs': p.v[0].get('inputs'), 'observed': 'reloaded file differs: %r' % (p.v[0].get('inputs'),), 'native_cmd': p.v[0].get('native_cmd')}
+    return {'confirmed': False, 'tried': 6}
